@@ -716,6 +716,7 @@ func Check(specPath string, opt Options) int {
 			"spurious_counterexamples":      spurious,
 			"known_findings_reproduced":     len(knownHit),
 			"violation_candidates":          run.ViolationCounts(),
+			"inconclusive_assertions":       run.InconclLabels,
 			"technique":                     "bounded symbolic execution of go/ssa (gosymex) with z3/cvc5; native replay of every counterexample",
 		},
 		"assumptions": sp.Assumptions,
@@ -749,6 +750,9 @@ func Check(specPath string, opt Options) int {
 			}
 			fmt.Printf("  unsupported x%d: %s\n", e.v, e.k)
 		}
+	}
+	for k, v := range run.InconclLabels {
+		fmt.Printf("  inconclusive x%d: %s (solver gave no verdict within the time limit; not counted as discharged)\n", v, k)
 	}
 	var khs []string
 	for k := range knownHit {
